@@ -100,7 +100,7 @@ func c08RunScenario(sc *c08Scenario) *c08Run {
 			gaps = true
 		}
 	}
-	r.log("Reset", "cap", 1000000, "batch", sc.Count, "dqbatch", 0, "retry", 0, "dq", false, "gaps", gaps, "name", sc.Name)
+	r.log("Reset", "cap", 1000000, "batch", sc.Count, "dqbatch", 0, "retry", 0, "dq", false, "gaps", gaps, "retention", 0, "mult10", 10, "name", sc.Name)
 	out := func(_ *WorkerData, b *Batch) {
 		bids := []int{}
 		total, last := 0, 0
@@ -118,7 +118,7 @@ func c08RunScenario(sc *c08Scenario) *c08Run {
 		for _, e := range b.events {
 			all = append(all, ids[e])
 		}
-		r.log("SendCall", "b", "main", "seq", int(b.seq), "ids", all)
+		r.log("SendCall", "b", "main", "seq", int(b.seq), "ids", all, "t", 0)
 		r.log("SendBytes", "b", "main", "first", all[0], "total", total, "last", last, "limit", sc.Bytes)
 		if sc.Stale {
 			amu.Lock()
@@ -134,7 +134,7 @@ func c08RunScenario(sc *c08Scenario) *c08Run {
 			pmu.Unlock()
 			<-ch
 		}
-		r.log("SendRet", "b", "main", "ids", all, "ok", true)
+		r.log("SendRet", "b", "main", "ids", all, "ok", true, "t", 0)
 	}
 	opts := BatcherOptions{
 		PipelineName: "verif_c08", OutputType: "verif", OutFn: out, Controller: &c08Ctl{r: r, id: ids},
